@@ -1,7 +1,8 @@
 /-
 Model of lazy pipelines: `pipefunc/lazy.py` (`_LazyFunction`, `construct_dag`, `evaluate_lazy`) and the lazy branches of
 `Pipeline._run` (`pipefunc/_pipeline/_base.py:507-569`), `_execute_func` (`:2015-2023`), `_update_all_results` (`:1995-2012`),
-`_current_cache` (`:507-511`) and `compute_cache_key/get_result_from_cache/update_cache` (`pipefunc/_pipeline/_cache.py:52-133`).
+`_current_cache` (`:508-512`), `_intermediate_supplied` (`:514-527`) and `compute_cache_key/get_result_from_cache/update_cache`
+(`pipefunc/_pipeline/_cache.py:52-133`).  The cache key is the one of `PF.PipeCache.computeKey` (C09's model of the same lines).
 
 The lazy layer sits on top of `PF.Pipe`: functions, `producer`, `resolve` (argument precedence), `outVals`, `result`, the error
 type and the specification `compose` are the eager model's.  What is new is the *node table*: every `_LazyFunction` gets the
@@ -9,6 +10,7 @@ next value of the global counter `_LazyFunction._counter` as its id (`lazy.py:38
 Core Lean only.
 -/
 import PfModel.Model.Pipeline
+import PfModel.Model.PipeCache
 namespace PF.Lazy
 open PF PF.Pipe
 
@@ -61,6 +63,10 @@ structure LSt where
   nodes : List Node                 -- every `_LazyFunction` created so far; id = position (`_LazyFunction._counter`)
   tg : Option TG                    -- `_TASK_GRAPH` (`lazy.py:97`)
   ev : ESt                          -- the `_evaluated/_result` slots of all nodes, and the call log
+  own : Option (List (Key × LArg)) := none
+                                    -- `Pipeline.cache`: the lazy pipeline's own cache (`create_cache`, `_cache.py:19-49`; `None` when
+                                    -- `cache_type=None` and no function has `cache=True`), below its size limit: most recent `put` first
+  cfn : List (List String) := []    -- the output names of the functions with `cache=True` (`PipeFunc.cache`; constant)
   deriving Repr, Inhabited
 
 /-- `_LazyFunction.__init__` (`lazy.py:25-58`): take the next id; under `construct_dag()` add the node and one edge per
@@ -102,7 +108,8 @@ def cacheGet : List (Key × LArg) → Key → Option LArg
   | [], _ => none
   | (k, a) :: r, k' => if keq k k' then some a else cacheGet r k'
 
-/-- `_func_defaults | flat_scope_kwargs | func._bound` looked up at one name (`_base.py:535, 895-908`) -/
+/-- (the pinned code, before the repairs 0741b81 and the bound-shadowing one; kept for reference, used by nothing)
+    `_func_defaults | flat_scope_kwargs | func._bound` looked up at one name -/
 def keyArg (fs : List Func) (kw : List (String × Val)) (f : Func) (p : String) : Option Val :=
   match alookup f.bound p with
   | some v => some v
@@ -121,33 +128,45 @@ def keyItems (fs : List Func) (kw : List (String × Val)) (f : Func) : List Stri
     | some v, some r => some ((p, v) :: r)
     | _, _ => none
 
-/-- `compute_cache_key(func.output_name, …, self.root_args(output_name))`: `None` when a root argument has no value here -/
+/-- `compute_cache_key(func.output_name, self._func_defaults(func) | flat_scope_kwargs, self.root_args(output_name))`, set to `None`
+    by `_intermediate_supplied` (`_base.py:549-560`): `PF.PipeCache.computeKey` with the values themselves as hashable stand-ins.
+    `None` when a root argument has no value here or a keyword supplies an output of an upstream function. -/
 def cacheKey (fs : List Func) (kw : List (String × Val)) (f : Func) (o : String) : Option Key :=
-  match rootArgs fs o with
+  match PipeCache.computeKey (fun v => v) fs kw f o with
   | none => none
-  | some roots =>
-    match keyItems fs kw f roots with
-    | none => none
-    | some items => some (f.outputs, items)
+  | some K => some (K.outs, K.items)
 
-/-- `use_cache` and the key, for a lazy pipeline that has no cache of its own (`cache_type=None`, no `cache=True` function):
-    `_current_cache()` is the task graph's cache inside `construct_dag()` and `None` outside (`_base.py:507-511, 527-537`) -/
+/-- `use_cache = (func.cache and cache is not None) or task_graph() is not None` (`_base.py:543-544`) -/
+def useCache (f : Func) (s : LSt) : Bool := s.tg.isSome || (s.cfn.contains f.outputs && s.own.isSome)
+
+/-- the key `_run` works with: none unless `use_cache` (`_base.py:547-560`) -/
 def activeKey (fs : List Func) (kw : List (String × Val)) (f : Func) (o : String) (s : LSt) : Option Key :=
-  match s.tg with
-  | none => none
-  | some _ => cacheKey fs kw f o
+  if useCache f s then cacheKey fs kw f o else none
 
+/-- `_current_cache()` (`_base.py:508-512`): the task graph's cache inside `construct_dag()`, else the pipeline's own -/
+def curCache (s : LSt) : Option (List (Key × LArg)) :=
+  match s.tg with
+  | some g => some g.cache
+  | none => s.own
+
+/-- `get_result_from_cache` (`_cache.py:126-127`): `cache_key is not None and cache_key in cache`, then `cache.get` -/
 def cacheLookup (s : LSt) : Option Key → Option LArg
   | none => none
-  | some k => match s.tg with
+  | some k => match curCache s with
     | none => none
-    | some g => cacheGet g.cache k
+    | some c => cacheGet c k
 
-/-- `update_cache` (`_cache.py:98-109`, `_base.py:565-567`) -/
+/-- `update_cache` (`_cache.py:98-109`, `_base.py:588-590`) on the current cache -/
 def cachePut (key : Option Key) (a : LArg) (s : LSt) : LSt :=
-  match key, s.tg with
-  | some k, some g => { s with tg := some { g with cache := (k, a) :: g.cache } }
-  | _, _ => s
+  match key with
+  | none => s
+  | some k =>
+    match s.tg with
+    | some g => { s with tg := some { g with cache := (k, a) :: g.cache } }
+    | none =>
+      match s.own with
+      | some c => { s with own := some ((k, a) :: c) }
+      | none => s
 
 /-- the `for name in func.output_name` loop of `_update_all_results` in lazy mode: one pick node per output name -/
 def mkPicks (f : Func) (src : LArg) : List String → LSt → List (String × LArg) × LSt
